@@ -17,6 +17,55 @@ pub struct DurationLiteral {
 }
 
 impl DurationLiteral {
+    /// Creates a duration from a number of units where the unit has the specified number
+    /// of nanoseconds. Returns an error if the duration is too large to represent.
+    fn try_from_units(value: FixedPoint, nanos_per_unit: u128) -> Result<Self, &'static str> {
+        let whole = (value.whole as u128)
+            .checked_mul(nanos_per_unit)
+            .ok_or("duration out of range")?;
+        // The fraction is in units of 10^-15
+        let fraction =
+            (value.femptos as u128) * nanos_per_unit / (FixedPoint::FRACTIONAL_UNITS as u128);
+        let total = whole.checked_add(fraction).ok_or("duration out of range")?;
+        let seconds =
+            i64::try_from(total / 1_000_000_000).map_err(|e| "duration out of range")?;
+        let nanoseconds = (total % 1_000_000_000) as i32;
+        Ok(Self {
+            span: value.span,
+            interval: Duration::new(seconds, nanoseconds),
+        })
+    }
+
+    pub fn try_days(days: FixedPoint) -> Result<Self, &'static str> {
+        Self::try_from_units(days, SECOND_PER_DAY as u128 * 1_000_000_000)
+    }
+
+    pub fn try_hours(hours: FixedPoint) -> Result<Self, &'static str> {
+        Self::try_from_units(hours, SECOND_PER_HOUR as u128 * 1_000_000_000)
+    }
+
+    pub fn try_minutes(minutes: FixedPoint) -> Result<Self, &'static str> {
+        Self::try_from_units(minutes, SECOND_PER_MINUTE as u128 * 1_000_000_000)
+    }
+
+    pub fn try_seconds(seconds: FixedPoint) -> Result<Self, &'static str> {
+        Self::try_from_units(seconds, 1_000_000_000)
+    }
+
+    pub fn try_milliseconds(millis: FixedPoint) -> Result<Self, &'static str> {
+        Self::try_from_units(millis, 1_000_000)
+    }
+
+    /// Adds the durations. Returns an error if the sum is too large to represent.
+    pub fn try_plus(&self, other: DurationLiteral) -> Result<Self, &'static str> {
+        Ok(DurationLiteral {
+            span: SourceSpan::join(&self.span, &other.span),
+            interval: self
+                .interval
+                .checked_add(other.interval)
+                .ok_or("duration out of range")?,
+        })
+    }
     /// Create a new `DurationLiteral` with the given number of days.
     ///
     /// ```rust
